@@ -43,6 +43,8 @@ type World struct {
 	logPos int
 	segPos int
 	extraOK func(real string) bool // additional paths the confinement invariant accepts
+	followUp  bool // C08: after recovery, carry on with another update
+	followSet int
 	cfgPath string
 }
 
